@@ -188,12 +188,16 @@ def handleStats (focus : String) (c : Case) : String := Id.run do
           if a.r == b.r && a.c == b.c && a.r == m + p then
             -- entrywise relative to sqrt(c_ii c_jj): rounding differs between w∘(D c) and (w∘D) c, amplified
             -- by the conditioning of the inversion; a well determined inverse agrees to 1e-5
-            let scaleAt (i j : Nat) : Float := ((a.get i i).abs * (a.get j j).abs).sqrt
+            let scaleAt (i j : Nat) : Float :=
+              let sa := ((a.get i i).abs * (a.get j j).abs).sqrt
+              -- (a weighted problem whose covariance is not finite is judged on the twin's scale)
+              if sa > 0.0 && sa.isFinite then sa else ((b.get i i).abs * (b.get j j).abs).sqrt
             let mut worst := 0.0
             for i in [0:a.r] do
               for j in [0:a.c] do
                 let sc := scaleAt i j
-                if sc > 0.0 && sc.isFinite then
+                if !(a.get i j).isFinite && (b.get i j).isFinite then worst := 1.0 / 0.0
+                else if sc > 0.0 && sc.isFinite then
                   let d := (a.get i j - b.get i j).abs / sc
                   if d > worst || d.isNaN then worst := d
             acc := { acc with compared := acc.compared + 1 }
